@@ -141,14 +141,23 @@ func scenBlock(rng *rand.Rand, tr *sim.Trace, seg int, events int) {
 				}
 				h.flush(true)
 			} else {
+				if len(outs) > 0 {
+					c.t, _ = outs[len(outs)-1].Str("t")
+				}
 				open = append(open, c)
 			}
 		case 6: // a reply for a query that was sent before its destination got blocked
 			if len(open) > 0 {
 				c := open[0]
 				open = open[1:]
-				// we do not know t here; the flush above logged it; resend unknown t = unmatched, then cancel
-				h.in(c.dst, &query{y: "r", t: []byte("zz"), hasA: true, id: randID(rng), port: -1})
+				// the genuine reply (right address, right transaction ID): it completes the query unless the
+				// address has been blocklisted in the meantime
+				h.in(c.dst, &query{y: "r", t: c.t, hasA: true, id: randID(rng), port: -1})
+				sim.WaitQuiet(60 * time.Second)
+				if h.ret(c, 0) {
+					h.flush(true)
+					continue
+				}
 				sim.WaitQuiet(60 * time.Second)
 				h.cancelCall(c)
 				if !h.ret(c, 30*time.Second) {
